@@ -525,6 +525,14 @@ def dropped(n):
     s = None
     LOG.append('rebound')
     return y
+def gen_drop(n):
+    # ... also in a generator, after it was suspended and resumed
+    r = Res('gd%d' % n)
+    x = n + 1
+    yield x
+    del r
+    LOG.append('gen deleted')
+    yield x + 1
 def caller(n):
     # ... and so for a variable of the calling function, while the function called is being looked at
     c = Res('c%d' % n)
@@ -564,6 +572,9 @@ def main():
         LOG.append('after dropped')
         caller(4)
         LOG.append('after caller')
+        for v in gen_drop(5):
+            pass
+        LOG.append('after gen_drop')
     finally:
         if was:
             gc.enable()
@@ -571,6 +582,25 @@ def main():
     out('lifetimes', len(LOG))
     return list(LOG)
 ''', hostile=True, only='C01')
+
+
+P('exec_names', '''
+DATA = {}
+def run_snippets(snippets):
+    # names bound by exec() in a function are no variables of the function: python keeps them in the mapping of the frame only
+    done = 0
+    for s in snippets:
+        exec(s)
+        done += 1
+    total = eval('price * qty')
+    locals()['extra'] = 7
+    return total + done + locals()['extra']
+def main():
+    r = run_snippets(['price = 4', 'qty = 5'])
+    DATA['r'] = r
+    out('names', r)
+    return r
+''', only='C01')
 
 
 P('reads_own_frame', '''
